@@ -345,7 +345,7 @@ class C11(Check):
                    "order of redo_list after a selective undo is the documented one (last undone is first redone)",
                    "bounded depth and alphabet; contents are unique per step so a wrong restore is visible"]
     chunksize = 1
-    budget_quick = 200
+    budget_quick = 450
 
     def bound_text(self, tier):
         return "depth 4 for history limits {2,32}, depth 3 for limits {0,1}" if tier == "quick" else "depth 5 (full alphabet, limits {2,32}); depth 6 (9-event sub-alphabet, limit 32); depth 5 limits {0,1}"
